@@ -33,6 +33,12 @@ CHECKS = {
     "C08": dict(level="fault_enumeration", technique="runtime monitoring: limit sweep (every limit value up to the need placed) with outcome oracle from the reference evaluator / event tally; counter-vs-event-log conservation",
                 text="for generated core programs (exact call count and nesting depth from the reference evaluator), recursive skeletons (calls/depth/tail iterations known in closed form), searching builtins (elements examined known) and library functions written in the language (need learnt from the hook's event tally), every limit value from 1 to need+2 is placed: the outcome is the right violation exactly at the documented threshold and otherwise the unlimited result; the limit counter equals the tally of user-call events; run/run/reset/run host histories behave as the budget arithmetic predicts",
                 note="thresholds as read from limits.md (Appendix A of DESIGN.md); quick tier places a stratified subset of limit values that always contains need-1, need, need+1"),
+    "C07": dict(level="exploration", technique="runtime monitoring: closed-form result oracle + event tallies (tail iterations, frame heights) from cfg-gated hooks + depth/recursion limit probes",
+                text="held on the executions observed: for 31 syntactic placements of the self-call and iteration counts 0..10^5 the result equals the closed form; placements in tail position are trampolined (tail-iteration tally = iteration count, frame height <= 2, survive depth limits 5 and 50, bounded exactly by the recursion limit); placements under operators, in arguments, inside lambdas, via an alias or through another function are never trampolined (tally 0, frame height = nesting, depth violation exactly when the nesting reaches the limit)",
+                note="the classification of placements follows the book's tail-call section and the documented short-circuit list; identity wrappers (cast, to_str of a str) are only checked for their result"),
+    "C09": dict(level="fault_enumeration", technique="runtime monitoring: double-entry conservation monitor (runtime byte account vs shadow ledger of live objects) + allocation-failure sweep over the recorded allocation event list",
+                text="for hand-written and generated programs the allocation event list of an unlimited run gives every allocation point; a size limit is placed so that the refusal lands on each of them: the outcome is AllocationLimitReached or the unlimited result, the peak never exceeds the limit without a violation, passing is monotone in the limit, and after dropping everything the account is back at its baseline with zero live objects - also after allocation, depth, call, search, recursion, permission and output violations; recorded sizes are at least the payload; the account equals the ledger at quiescent points",
+                note="quick tier samples 40 allocation points per program, thorough uses all; payload lower bounds are conservative (own payload only)"),
 }
 REASON_PENDING = "check under construction in this round (not yet claimed)"
 
